@@ -14,7 +14,7 @@ from facts import peel, strip_ref, call_is, walk
 PROJ_SUFFIX = (
     "AsRef::as_ref", "Deref::deref", "::iter", "IntoIterator::into_iter", "Iterator::enumerate", "Clone::clone", ">::get", "::as_object",
     "::as_str", "::as_array", "Iterator::by_ref", "Borrow::borrow", "::as_slice", "Option::<T>::as_ref", "::unwrap_or", "ToOwned::to_owned",
-    "::to_string", "ToString::to_string", "::len", "::as_mapping",
+    "::to_string", "ToString::to_string", "::len", "::as_mapping", "Option::<T>::expect", "Option::<T>::unwrap",
 )
 FIND_SUFFIX = ("Document::find", "Object::find", "Object::get")
 
